@@ -82,10 +82,17 @@ func init() {
 				e1run("doc-n2-d4-order01", "doc", 2, 4, "", o, []int32{0, 1}, "", 0),
 				e1run("docnest-n2-d5-order01", "doc", 2, 5, "nest", o, []int32{0, 1}, "", 0),
 				e1run("docnest-n2-d5-order10", "doc", 2, 5, "nest", o, []int32{1, 0}, "", 0),
+				e1run("list-skew-n3-d4", "list", 3, 4, "mid", o, nil, "skew", 0),
+				e1run("docarr-skew-n3-d4", "doc", 3, 4, "arr", o, nil, "skew", 0),
+				e1run("map-skew-n3-d4", "map", 3, 4, "", o, nil, "skew", 0),
+				e1runSP("doc-live-n2-d2-tx", "doc", 2, 2, "tx", o, 1, 0, "live"), // failed transactions (rollback + replay) inside the history
+				e1runSP("list-live-n2-d2-tx", "list", 2, 2, "tx", o, 1, 0, "live"),
 			}
 		} else {
 			p.BudgetS = 3300
 			p.Runs = []Run{
+				e1runSP("doc-live-n2-d3-tx", "doc", 2, 3, "tx", o, 1, 600000, "live"),
+				e1runSP("list-live-n2-d3-tx", "list", 2, 3, "tx", o, 1, 600000, "live"),
 				e1run("counter-n3-d6", "counter", 3, 6, "rich", o, nil, "", 0),
 				e1run("map-n2-d7", "map", 2, 7, "rich", o, nil, "", 600000),
 				e1run("map-n3-d5", "map", 3, 5, "", o, nil, "", 600000),
@@ -97,6 +104,9 @@ func init() {
 				e1run("doc-n2-d4-order10", "doc", 2, 4, "rich", o, []int32{1, 0}, "", 600000),
 				e1run("doc-n3-d4", "doc", 3, 4, "", o, nil, "", 600000),
 				e1run("doc-deep-n2-d3", "doc", 2, 3, "", o, nil, "deep-doc", 0),
+				e1run("list-skew-n3-d5", "list", 3, 5, "mid", o, nil, "skew", 600000),
+				e1run("docarr-skew-n3-d5", "doc", 3, 5, "arr", o, nil, "skew", 600000),
+				e1run("map-skew-n3-d5", "map", 3, 5, "", o, nil, "skew", 600000),
 			}
 		}
 		return p
@@ -121,6 +131,8 @@ func init() {
 				e1run("doc-live-n3-d3", "doc", 3, 3, "c02", o, nil, "live", 0),
 				e1run("doc-live-n3-key1-d5", "doc", 3, 5, "key1", o, nil, "live", 0),
 				e1run("doc-n2-d4", "doc", 2, 4, "c02", o, nil, "", 0),
+				e1run("list-skew-n3-d4", "list", 3, 4, "mid", o, nil, "skew", 0),
+				e1run("map-skew-n3-d4", "map", 3, 4, "", o, nil, "skew", 0),
 			}
 		} else {
 			p.BudgetS = 3300
@@ -135,6 +147,8 @@ func init() {
 				e1run("list-n4-d4", "list", 4, 4, "", o, nil, "", 600000),
 				e1run("doc-n2-d5", "doc", 2, 5, "c02", o, nil, "", 600000),
 				e1run("doc-n3-d4", "doc", 3, 4, "c02", o, nil, "", 600000),
+				e1run("list-skew-n3-d5", "list", 3, 5, "mid", o, nil, "skew", 600000),
+				e1run("map-skew-n3-d5", "map", 3, 5, "", o, nil, "skew", 600000),
 			}
 		}
 		return p
@@ -155,6 +169,8 @@ func init() {
 				e1run("list-live-n3-d3", "list", 3, 3, "", o, nil, "live", 0),
 				e1run("docarr-n2-d5", "doc", 2, 5, "arr", o, nil, "", 0),
 				e1run("docarr-live-n2-d4", "doc", 2, 4, "arr", o, nil, "live", 0),
+				e1run("list-skew-n3-d4", "list", 3, 4, "mid", o, nil, "skew", 0),
+				e1run("docarr-skew-n3-d4", "doc", 3, 4, "arr", o, nil, "skew", 0),
 			}
 		} else {
 			p.BudgetS = 3300
@@ -166,6 +182,8 @@ func init() {
 				e1run("docarr-n2-d5", "doc", 2, 5, "arr", o, nil, "", 600000),
 				e1run("docarr-n3-d4", "doc", 3, 4, "arr", o, nil, "", 600000),
 				e1run("docarr-deep-n2-d3", "doc", 2, 3, "arr", o, nil, "deep-doc", 0),
+				e1run("list-skew-n3-d5", "list", 3, 5, "mid", o, nil, "skew", 600000),
+				e1run("docarr-skew-n3-d5", "doc", 3, 5, "arr", o, nil, "skew", 600000),
 			}
 		}
 		return p
@@ -178,6 +196,14 @@ func e1runS(name, typ string, n, depth int, alpha string, oracles []string, maxS
 			e1p
 			MaxSkips int `json:"max_skips"`
 		}{e1p{wp: wp{Type: typ, N: n, Alpha: alpha}, Oracles: oracles}, maxSkips}}
+}
+
+func e1runSP(name, typ string, n, depth int, alpha string, oracles []string, maxSkips, maxState int, prefix string) Run {
+	return Run{Name: name, Check: "E1", Depth: depth, MaxState: maxState,
+		Params: struct {
+			e1p
+			MaxSkips int `json:"max_skips"`
+		}{e1p{wp: wp{Type: typ, N: n, Alpha: alpha, Prefix: prefix}, Oracles: oracles}, maxSkips}}
 }
 
 func init() {
@@ -196,10 +222,16 @@ func init() {
 				e1runS("map-n2-d4", "map", 2, 4, "tx", o, 1, 0),
 				e1runS("list-n2-d3", "list", 2, 3, "tx", o, 1, 0),
 				e1runS("doc-n2-d3", "doc", 2, 3, "tx", o, 1, 0),
+				e1runSP("doc-live-n2-d2", "doc", 2, 2, "tx", o, 1, 0, "live"),
+				e1runSP("list-live-n2-d3", "list", 2, 3, "tx", o, 1, 0, "live"),
+				e1runSP("map-live-n2-d3", "map", 2, 3, "tx", o, 1, 0, "live"),
 			}
 		} else {
 			p.BudgetS = 3300
 			p.Runs = []Run{
+				e1runSP("doc-live-n2-d4", "doc", 2, 4, "tx", o, 2, 600000, "live"),
+				e1runSP("list-live-n2-d4", "list", 2, 4, "tx batch", o, 2, 600000, "live"),
+				e1runSP("map-live-n3-d4", "map", 3, 4, "tx", o, 2, 600000, "live"),
 				e1runS("counter-n2-d6", "counter", 2, 6, "tx", o, 2, 600000),
 				e1runS("map-n2-d5", "map", 2, 5, "tx rich", o, 2, 600000),
 				e1runS("list-n2-d4", "list", 2, 4, "tx batch", o, 2, 600000),
@@ -222,10 +254,16 @@ func init() {
 				e1runS("map-n2-d5", "map", 2, 5, "", o, 1, 0),
 				e1runS("list-n2-d4", "list", 2, 4, "batch", o, 1, 0),
 				e1runS("doc-n2-d4", "doc", 2, 4, "", o, 1, 0),
+				e1runSP("list-live-n2-d4", "list", 2, 4, "", o, 1, 0, "live"),
+				e1runSP("docarr-live-n2-d4", "doc", 2, 4, "arr", o, 1, 0, "live"),
+				e1runSP("map-live-n2-d4", "map", 2, 4, "", o, 1, 0, "live"),
 			}
 		} else {
 			p.BudgetS = 3300
 			p.Runs = []Run{
+				e1runSP("list-live-n2-d5", "list", 2, 5, "mid", o, 1, 600000, "live"),
+				e1runSP("docarr-live-n2-d5", "doc", 2, 5, "arr", o, 1, 600000, "live"),
+				e1runSP("list-skew-n3-d4", "list", 3, 4, "mid", o, 1, 600000, "skew"),
 				e1runS("counter-n2-d6", "counter", 2, 6, "", o, 1, 600000),
 				e1runS("map-n2-d6", "map", 2, 6, "rich", o, 1, 600000),
 				e1runS("list-n2-d6", "list", 2, 6, "batch", o, 1, 600000),
@@ -267,6 +305,8 @@ func init() {
 				e1runS("doc-n2-d3", "doc", 2, 3, "tx", o, 1, 0),
 				e1run("list-deep-n2-d2", "list", 2, 2, "batch", o, nil, "deep-list", 0),
 				e1run("doc-deep-n2-d2", "doc", 2, 2, "arr", o, nil, "deep-doc", 0),
+				e1run("list-skew-n3-d4", "list", 3, 4, "mid", o, nil, "skew", 0),
+				e1run("counter-skew-n3-d4", "counter", 3, 4, "", o, nil, "skew", 0),
 			}
 		} else {
 			p.BudgetS = 3300
@@ -278,6 +318,8 @@ func init() {
 				e1runS("doc-n2-d4", "doc", 2, 4, "tx", o, 2, 600000),
 				e1run("list-deep-n2-d4", "list", 2, 4, "batch", o, nil, "deep-list", 600000),
 				e1run("doc-deep-n2-d4", "doc", 2, 4, "arr", o, nil, "deep-doc", 600000),
+				e1run("list-skew-n3-d5", "list", 3, 5, "mid", o, nil, "skew", 600000),
+				e1run("map-skew-n3-d5", "map", 3, 5, "", o, nil, "skew", 600000),
 			}
 		}
 		return p
@@ -330,6 +372,9 @@ func init() {
 				e2run("list-2c-joined-d4", e2p{Clients: 2, Type: "list", Prefix: "joined", Oracles: o}, 4, 0),
 				e2run("map-3c-joined-d4", e2p{Clients: 3, Type: "map", Prefix: "joined", Oracles: o}, 4, 0),
 				e2run("doc-2c-joined-d3", e2p{Clients: 2, Type: "doc", Prefix: "joined", Oracles: o}, 3, 0),
+				e2run("list-2c-ahead-d4", e2p{Clients: 2, Type: "list", Prefix: "ahead", Alpha: "mid", Oracles: o}, 4, 0),
+				e2run("docarr-2c-ahead-d4", e2p{Clients: 2, Type: "doc", Prefix: "ahead", Alpha: "arr", Oracles: o}, 4, 0),
+				e2run("map-3c-ahead-d4", e2p{Clients: 3, Type: "map", Prefix: "ahead", Modes: []string{"soc", "subscribe"}, Oracles: o}, 4, 0),
 			}
 		} else {
 			p.BudgetS = 3300
@@ -346,6 +391,10 @@ func init() {
 				e2run("doc-2c-d5", e2p{Clients: 2, Type: "doc", Modes: []string{"soc"}, Oracles: o}, 5, 300000),
 				e2run("counter-2c-3keys-joined-d5", e2p{Clients: 2, Type: "counter", Keys: []string{"k1", "k2", "k3"}, Prefix: "joined", Exchange: "pack", Alpha: "one", Oracles: o}, 5, 300000),
 				e2run("counter-6c-d6", e2p{Clients: 6, Type: "counter", Modes: []string{"soc"}, Alpha: "one", Oracles: o}, 6, 300000),
+				e2run("list-2c-ahead-d6", e2p{Clients: 2, Type: "list", Prefix: "ahead", Alpha: "mid", Oracles: o}, 6, 300000),
+				e2run("list-3c-ahead-d5", e2p{Clients: 3, Type: "list", Prefix: "ahead", Alpha: "mid", Oracles: o}, 5, 300000),
+				e2run("docarr-2c-ahead-d5", e2p{Clients: 2, Type: "doc", Prefix: "ahead", Alpha: "arr", Oracles: o}, 5, 300000),
+				e2run("map-3c-ahead-d5", e2p{Clients: 3, Type: "map", Prefix: "ahead", Oracles: o}, 5, 300000),
 			}
 		}
 		return p
@@ -742,6 +791,9 @@ func init() {
 				mks("sync-counter-2u-2s-b3", 3, map[string]interface{}{"type": "counter", "users": 2, "syncs": 2, "pending": 1}),
 				mks("sync-counter-2u-1s-stmt-b2", 2, map[string]interface{}{"type": "counter", "users": 2, "syncs": 1, "pending": 1, "stmt": true}),
 				mks("sync-list-1u-2s-stmt-b2", 2, map[string]interface{}{"type": "list", "users": 1, "syncs": 2, "pending": 1, "stmt": true}),
+				mks("sync-counter-txfail-quiet-2u-1s-b3", 3, map[string]interface{}{"type": "counter", "users": 2, "syncs": 1, "pending": 1, "txfail": true, "quiet": true}),
+				mks("sync-list-txfail-2u-2s-b2", 2, map[string]interface{}{"type": "list", "users": 2, "syncs": 2, "pending": 1, "txfail": true}),
+				mks("sync-counter-txfail-quiet-2u-1s-stmt-b2", 2, map[string]interface{}{"type": "counter", "users": 2, "syncs": 1, "pending": 1, "txfail": true, "quiet": true, "stmt": true}),
 			}
 		} else {
 			p.BudgetS = 3400
@@ -761,6 +813,10 @@ func init() {
 				mks("sync-counter-2u-2s-stmt-b2", 2, map[string]interface{}{"type": "counter", "users": 2, "syncs": 2, "pending": 1, "stmt": true}),
 				mks("sync-list-2u-2s-stmt-b2", 2, map[string]interface{}{"type": "list", "users": 2, "syncs": 2, "pending": 1, "stmt": true}),
 				mks("sync-counter-2u-1s-stmt-b3", 3, map[string]interface{}{"type": "counter", "users": 2, "syncs": 1, "pending": 1, "stmt": true}),
+				mks("sync-counter-txfail-quiet-2u-2s-b4", 4, map[string]interface{}{"type": "counter", "users": 2, "syncs": 2, "pending": 1, "txfail": true, "quiet": true}),
+				mks("sync-list-txfail-quiet-3u-1s-b3", 3, map[string]interface{}{"type": "list", "users": 3, "syncs": 1, "pending": 1, "txfail": true, "quiet": true}),
+				mks("sync-list-txfail-2u-2s-b3", 3, map[string]interface{}{"type": "list", "users": 2, "syncs": 2, "pending": 1, "txfail": true}),
+				mks("sync-counter-txfail-quiet-2u-1s-stmt-b2", 2, map[string]interface{}{"type": "counter", "users": 2, "syncs": 1, "pending": 1, "txfail": true, "quiet": true, "stmt": true}),
 			}
 		}
 		if tier == "quick" {
